@@ -15,4 +15,9 @@ def copyFresh : Bool := true
     `node.model` is concerned -/
 def swapIR : List SStmt := [.other, .other, .other, .other, .other, .saveBase, .tryFinally [.setTarget, .emit] [.restoreBase], .other, .other]
 
+/-- the decision of `spox._adapt.adapt_inline` as written (normalised source text of every expression it
+    is made of): where the target and source versions come from, which guards return the build's
+    nodes unconverted, which guard calls the converter, how many `return protos` there are -/
+def adaptShape : List (String × String) := [("params", "node, protos, target_opsets, var_names, node_name"), ("target_version", "target_opsets['']"), ("source_version", "max({imp.version for imp in node.model.opset_import if imp.domain in ('', 'ai.onnx')}, default=target_version)"), ("seen_domains", "{prot.domain for prot in protos}"), ("keep-if", "not seen_domains & {'', 'ai.onnx'}"), ("convert-if", "source_version != target_version"), ("convert-call", "onnx.version_converter.convert_version(node.model, target_version)"), ("return-unconverted", "line-order 0"), ("return-unconverted", "line-order 1"), ("returns", "3"), ("loops-or-nested-defs", "0")]
+
 end Generated.InlineFacts
